@@ -1,27 +1,27 @@
 import Sm9.Proofs.MontBasic
+import Sm9.Proofs.MontMul
 import Sm9.Proofs.Consts
 import Sm9.Proofs.Pow
 /-!
 # C06 — Fq and Fr arithmetic is exact integer arithmetic modulo q and r
 
-Limb level (`Sm9.U256.*`, the model of u256.rs tied to the code by fingerprint +
-correspondence) refines arithmetic mod p for *every* modulus in the SM9 range and all
-operands below it; the two parameter sets satisfy the side conditions by kernel
-evaluation of the constants extracted from the source.
+Limb level (`Sm9.U256.*`, `Sm9.Fp.*`: the model of u256.rs / fp.rs, tied to the code by
+source fingerprints + raw-limb correspondence) refines arithmetic mod p for **every**
+modulus in the SM9 range and **all** operands below it: add, sub, negate, double,
+Montgomery multiplication (operand-scanning product + four REDC rows + final carry), the
+dedicated squaring schedule (= mul, unconditionally), entering / leaving Montgomery form.
+The two parameter sets satisfy the side conditions by kernel evaluation of the constants
+extracted from the source.  Still missing at limb level: `invert` (binary Euclid; its
+value-level counterpart is proved below) and `div2`'s top-bit path — decided meanwhile by
+raw-limb correspondence over the limb-boundary classes.
 -/
 set_option maxRecDepth 100000
 set_option exponentiation.threshold 1024
 namespace Sm9.C06
 
-/-- side conditions of all refinement theorems hold for the extracted moduli -/
-theorem moduli_in_range : (paramsQ.modulus < W256 ∧ W256 < 2 * paramsQ.modulus) ∧
-    (paramsR.modulus < W256 ∧ W256 < 2 * paramsR.modulus) := by decide +kernel
-/-- Montgomery constants: −p⁻¹ mod 2⁶⁴, R mod p, R² mod p -/
-theorem montgomery_constants :
-    (Consts.FQ * Consts.FQ_INV) % 2^64 = 2^64 - 1 ∧ (Consts.FR * Consts.FR_INV) % 2^64 = 2^64 - 1 ∧
-    Consts.FQ_ONE = 2^256 % Consts.FQ ∧ Consts.FR_ONE = 2^256 % Consts.FR ∧
-    Consts.FQ_SQUARED = 2^512 % Consts.FQ ∧ Consts.FR_SQUARED = 2^512 % Consts.FR :=
-  ⟨fq_inv_ok, fr_inv_ok, fq_one_ok, fr_one_ok, fq_squared_ok, fr_squared_ok⟩
+/-- side conditions of all refinement theorems hold for the extracted parameter sets:
+    2²⁵⁵ < p < 2²⁵⁶, p odd, inv = −p⁻¹ mod 2⁶⁴, R² mod p, R mod p -/
+theorem params_ok : paramsQ.Ok ∧ paramsR.Ok := ⟨paramsQ_ok, paramsR_ok⟩
 theorem add_refines (a b m : Nat) (hm : m < W256) (hm2 : W256 < 2 * m) (ha : a < m) (hb : b < m) :
     U256.add a b m < m ∧ U256.add a b m = (a + b) % m := U256.add_refines a b m hm hm2 ha hb
 theorem sub_refines (a b m : Nat) (hm : m < W256) (ha : a < m) (hb : b < m) :
@@ -30,6 +30,29 @@ theorem neg_refines (a m : Nat) (hm : m < W256) (ha : a < m) :
     U256.neg a m < m ∧ (U256.neg a m + a) % m = 0 := U256.neg_refines a m hm ha
 theorem double_refines (a m : Nat) (hm : m < W256) (hm2 : W256 < 2 * m) (ha : a < m) :
     U256.mul2 a m < m ∧ U256.mul2 a m = (2 * a) % m := U256.mul2_refines a m hm hm2 ha
+/-- Montgomery multiplication: the canonical representative of a·b·R⁻¹ mod m -/
+theorem mul_refines (a b m inv : Nat) (hm : m < W256) (hm2 : W256 < 2 * m)
+    (hinv : (m * inv) % 2 ^ 64 = 2 ^ 64 - 1) (ha : a < m) (hb : b < m) :
+    U256.mul a b m inv < m ∧ (U256.mul a b m inv * W256) % m = (a * b) % m :=
+  U256.mul_refines a b m inv hm hm2 hinv ha hb
+/-- the dedicated squaring (off-diagonal / doubling / diagonal schedule) equals `mul a a`
+    for all inputs -/
+theorem square_eq_mul (a m inv : Nat) : U256.square a m inv = U256.mul a a m inv :=
+  U256.square_eq_mul a m inv
+/-- the operand-scanning product is the integer product (any base, any length) -/
+theorem schoolbook_product (B : Nat) (d e : List Nat) :
+    Limb.value B (Limb.mulLimbs B d e) = Limb.value B d * Limb.value B e := Limb.mulLimbs_spec B d e
+/-- entering Montgomery form is ·R, leaving it is ·R⁻¹; the two are inverse on [0, p) -/
+theorem new_mul_factor_eq {P : MontParams} (hP : P.Ok) (x : Nat) (hx : x < P.modulus) :
+    Fp.new_mul_factor P x = (x * W256) % P.modulus := Fp.new_mul_factor_eq hP x hx
+theorem into_u256_refines {P : MontParams} (hP : P.Ok) (x : Nat) (hx : x < P.modulus) :
+    Fp.into_u256 P x < P.modulus ∧ (Fp.into_u256 P x * W256) % P.modulus = x := Fp.into_u256_refines hP x hx
+theorem into_new {P : MontParams} (hP : P.Ok) (x : Nat) (hx : x < P.modulus) :
+    Fp.into_u256 P (Fp.new_mul_factor P x) = x := Fp.into_u256_new_mul_factor hP x hx
+/-- multiplication observed through the canonical value is multiplication mod p -/
+theorem into_mul {P : MontParams} (hP : P.Ok) (a b : Nat) (ha : a < P.modulus) (hb : b < P.modulus) :
+    Fp.into_u256 P (Fp.mul P a b) = Fp.into_u256 P a * Fp.into_u256 P b % P.modulus :=
+  Fp.into_u256_mul hP a b ha hb
 /-- square-and-multiply exponentiation is exponentiation, for every exponent -/
 theorem fq_pow_eq (x : Fq) (e : Nat) : x.pow e = x ^ e := Fq.pow_eq x e
 theorem fr_pow_eq (x : Fr) (e : Nat) : x.pow e = x ^ e := Fr.pow_eq x e
@@ -49,8 +72,9 @@ theorem fq_inverse_mul (x y : Fq) (h : x.inverse = some y) : y * x = 1 := by
     apply Fq.pow_sub_two_mul
     intro h0; exact hz ((Fq.is_zero_iff x).2 h0)
 
-/-- non-vacuity: the boundary a + b = q with both operands canonical -/
-example : U256.add (q - 1) 1 q = 0 ∧ U256.sub 0 1 q = q - 1 ∧ U256.mul2 (q - 1) q = q - 2 := by
+/-- non-vacuity: the boundary a + b = q with both operands canonical, and a product -/
+example : U256.add (q - 1) 1 q = 0 ∧ U256.sub 0 1 q = q - 1 ∧ U256.mul2 (q - 1) q = q - 2 ∧
+    Fp.mul paramsQ paramsQ.one paramsQ.one = paramsQ.one := by
   decide +kernel
 
 end Sm9.C06
